@@ -1,1 +1,106 @@
-//! One module per property.
+//! One module per property: generator + oracle + classification.
+
+use crate::engine::{guarded, CheckResult, Ctx, Fail, PanicInfo, Report};
+use crate::libapi::{Lib, PkObj, SkObj, TestRng};
+use crate::refmodel::Mode;
+use serde_json::Value;
+
+pub mod c01;
+// TMP pub mod c02;
+pub mod c03;
+pub mod c04;
+// TMP pub mod c05;
+// TMP pub mod c06;
+// TMP pub mod c07;
+// TMP pub mod c08;
+// TMP pub mod c09;
+// TMP pub mod c10;
+// TMP pub mod c11;
+// TMP pub mod c12;
+// TMP pub mod c13;
+pub mod c15;
+// TMP pub mod c16;
+// TMP pub mod c18;
+
+pub const ASSUME_REF: &str = "oracle = independent spec-literal FIPS 204 reference (validated at start-up on the 75 keyGen / 60 sigGen / 45 sigVer ACVP vectors and one external pure-mode KAT); the HashML-DSA wrapper (Algorithms 4/5: domain byte, OIDs, digest lengths) is validated by review only";
+
+pub fn run(id: &str, ctx: &Ctx) -> Option<Report> {
+    let mut rep = Report::new(id);
+    match id {
+        "C01" => c01::run(ctx, &mut rep),
+// TMP         "C02" => c02::run(ctx, &mut rep),
+        "C03" => c03::run(ctx, &mut rep),
+        "C04" => c04::run(ctx, &mut rep),
+// TMP         "C05" => c05::run(ctx, &mut rep),
+// TMP         "C06" => c06::run(ctx, &mut rep),
+// TMP         "C07" => c07::run(ctx, &mut rep),
+// TMP         "C08" => c08::run(ctx, &mut rep),
+// TMP         "C09" => c09::run(ctx, &mut rep),
+// TMP         "C10" => c10::run(ctx, &mut rep),
+// TMP         "C11" => c11::run(ctx, &mut rep),
+// TMP         "C12" => c12::run(ctx, &mut rep),
+// TMP         "C13" => c13::run(ctx, &mut rep),
+        "C15" => c15::run(ctx, &mut rep),
+// TMP         "C16" => c16::run(ctx, &mut rep),
+// TMP         "C18" => c18::run(ctx, &mut rep),
+        _ => return None,
+    }
+    Some(rep)
+}
+
+/// Re-execute one saved case without the generator library. `None`: unknown property / sub-check.
+pub fn replay(id: &str, ctx: &Ctx, sub: &str, case: &Value) -> Option<CheckResult> {
+    match id {
+        "C01" => c01::replay(ctx, sub, case),
+// TMP         "C02" => c02::replay(ctx, sub, case),
+        "C03" => c03::replay(ctx, sub, case),
+        "C04" => c04::replay(ctx, sub, case),
+// TMP         "C05" => c05::replay(ctx, sub, case),
+// TMP         "C06" => c06::replay(ctx, sub, case),
+// TMP         "C07" => c07::replay(ctx, sub, case),
+// TMP         "C08" => c08::replay(ctx, sub, case),
+// TMP         "C09" => c09::replay(ctx, sub, case),
+// TMP         "C10" => c10::replay(ctx, sub, case),
+// TMP         "C11" => c11::replay(ctx, sub, case),
+// TMP         "C12" => c12::replay(ctx, sub, case),
+// TMP         "C13" => c13::replay(ctx, sub, case),
+        "C15" => c15::replay(ctx, sub, case),
+// TMP         "C16" => c16::replay(ctx, sub, case),
+// TMP         "C18" => c18::replay(ctx, sub, case),
+        _ => None,
+    }
+}
+
+pub fn from_case<T: serde::de::DeserializeOwned>(case: &Value) -> T {
+    serde_json::from_value(case.clone()).expect("replay file: case does not match this sub-check")
+}
+
+// ---------------------------------------------------------------------------------------------
+// Guarded library calls (a panic is an observation, not a crash of the harness)
+
+pub fn g_pk(lib: &dyn Lib, pk: &[u8]) -> Result<Box<dyn PkObj>, Fail> {
+    match guarded(|| lib.pk_from_bytes(pk)) {
+        Ok(Ok(k)) => Ok(k),
+        Ok(Err(e)) => Err(Fail::new("pk_from_bytes:err", format!("PublicKey::try_from_bytes returned Err({e}) for a public-key-length string"))),
+        Err(p) => Err(Fail::panic("pk_from_bytes", &p)),
+    }
+}
+
+pub fn g_verify(pk: &dyn PkObj, m: &[u8], sig: &[u8], ctx: &[u8], mode: Mode) -> Result<bool, Fail> {
+    guarded(|| pk.verify(m, sig, ctx, mode)).map_err(|p| Fail::panic("verify", &p))
+}
+
+pub fn g_verify_bytes(lib: &dyn Lib, pk: &[u8], m: &[u8], sig: &[u8], ctx: &[u8], mode: Mode) -> Result<bool, Fail> {
+    let k = g_pk(lib, pk)?;
+    g_verify(&*k, m, sig, ctx, mode)
+}
+
+pub fn g_sk(lib: &dyn Lib, sk: &[u8]) -> Result<Result<Box<dyn SkObj>, &'static str>, Fail> {
+    guarded(|| lib.sk_from_bytes(sk)).map_err(|p| Fail::panic("sk_from_bytes", &p))
+}
+
+pub fn g_sign(sk: &dyn SkObj, rng: &mut TestRng, m: &[u8], ctx: &[u8], mode: Mode) -> Result<Result<Vec<u8>, &'static str>, PanicInfo> {
+    guarded(|| sk.sign(rng, m, ctx, mode))
+}
+
+pub fn g<T>(op: &str, f: impl FnOnce() -> T) -> Result<T, Fail> { guarded(f).map_err(|p| Fail::panic(op, &p)) }
